@@ -514,6 +514,7 @@ func runC20(env *vk.Env) {
 	env.Sample(scs[0])
 	runChanQueue(env)
 	runPlayerList(env)
+	runBotConn(env)
 	runStreams(env)
 	collectRaceReports(env)
 }
@@ -537,6 +538,7 @@ func replayC20(env *vk.Env, b []byte) {
 	default:
 		runChanQueue(env)
 		runPlayerList(env)
+		runBotConn(env)
 		runStreams(env)
 		collectRaceReports(env)
 	}
